@@ -242,6 +242,9 @@ class PrecipitateModel (PrecipitateBase):
                 self.PSDXalpha[p] = np.zeros((self.PBM[p].bins + 1,1))
                 self.PSDXbeta[p] = np.zeros((self.PBM[p].bins + 1,1))
 
+        #Temperature and equilibrium compositions that the lookup table corresponds to
+        self._lookupTemperature = T
+        self._lookupEq = (xEqAlpha, xEqBeta)
         return xEqAlpha, xEqBeta
     
     def _setupAspectRatio(self):
@@ -539,12 +542,13 @@ class PrecipitateModel (PrecipitateBase):
         #Update equilibrium interfacial compositions
         #This will be override if _createLookupBinary is called
         T = Y.temperature[0]
-        self.dTemp += T - self.pData.temperature[self.pData.n]
+        #Temperature change since the lookup table was built
+        self.dTemp = T - self._lookupTemperature
         if np.abs(self.dTemp) > self.constraints.maxTempChange:
             xEqAlpha, xEqBeta = self._createLookupBinary(T)
-        else:
-            xEqAlpha, xEqBeta = np.array([self.pData.xEqAlpha[self.pData.n]]), np.array([self.pData.xEqBeta[self.pData.n]])
             self.dTemp = 0
+        else:
+            xEqAlpha, xEqBeta = self._lookupEq
         Y.xEqAlpha = xEqAlpha
         Y.xEqBeta = xEqBeta
         
